@@ -56,6 +56,8 @@ def build(tier, seed):
         from bounded import c02
         return masking.obligations(PROP, "ford.sourceform", c02.parser_literal_cases)
     tasks.append(Task(f"{PROP}.S.masking", PROP, "literal masking loops", _mask))
+    tasks.append(Task(f"{PROP}.S.literal_reinsertion", PROP, "line_to_variables",
+                      lambda: __import__("contracts.declarations", fromlist=["x"]).literal_reinsertion_is_last(PROP)))
     tasks.append(Task(f"{PROP}.B.QUOTES_RE", PROP, "ford.sourceform.QUOTES_RE", lambda: rx_lex.quotes_re_obligations(PROP)))
     meta = {
         "trusted_base": TRUSTED_BASE,
